@@ -3,6 +3,7 @@
 cd /verif
 for d in seeded/*/; do
   s=$(basename $d); c=$(python3 -c "import json;print(json.load(open('$d/meta.json'))['property'])")
+  if grep -q '"status": "obsolete"' $d/meta.json; then echo "$s $c obsolete (see meta.json)"; continue; fi
   n=$(tools/run_seed.sh $s $c 2>/dev/null | grep -a -c "^VIOLATION")
   echo "$s $c violations=$n"
 done
